@@ -2902,7 +2902,13 @@ func (dsc *dataStoreCommand) setRemove(keyName string, members []string) (output
 	for _, member := range members {
 		if m.remove(member) {
 			removals++
+			dsc.setDirty()
 		}
+	}
+
+	if m.count == 0 {
+		// a set never exists empty
+		dsc.ds.data.remove(keyName)
 	}
 
 	output.data = respInt(removals)
